@@ -75,6 +75,9 @@ pub fn packet_kinds() -> Vec<(&'static str, Vec<u8>)> {
         ("syn-v6", pkt::frame(Link::Ethernet, &pkt::build(&Spec { v6: true, src: 1, sport: 40000, dst: 2, dport: 80, flags: SYN, opts: vec![2, 4, 5, 0xa0], ..Spec::default() }))),
         // a request the database still matches although the header every bundled request signature lists is missing
         ("http-request-without-user-agent", c2s(ACK | PSH, 1001, b"GET / HTTP/1.1\r\nHost: u.example\r\nAccept: text/html,application/xhtml+xml,application/xml;q=0.9,*/*;q=0.8\r\nAccept-Language: en-us,en;q=0.5\r\nAccept-Encoding: gzip, deflate\r\nConnection: keep-alive\r\n\r\n", Some(100_100), false)),
+        // the header is there but says nothing (empty, and blank only)
+        ("http-request-with-empty-user-agent", c2s(ACK | PSH, 1001, b"GET / HTTP/1.1\r\nHost: u.example\r\nUser-Agent:\r\nAccept: */*\r\n\r\n", Some(100_100), false)),
+        ("http-request-with-blank-user-agent", c2s(ACK | PSH, 1001, b"GET / HTTP/1.1\r\nHost: u.example\r\nUser-Agent:   \r\nAccept: */*\r\n\r\n", Some(100_100), false)),
     ]
 }
 
@@ -355,7 +358,7 @@ pub fn run(thorough: bool) -> Outcome {
     });
     Outcome {
         report: rep,
-        rule: "every trace of <= 4 packets (5 thorough) over 20 packet kinds (SYN/SYN+ACK/ACK with timestamps, HTTP request with and without User-Agent, HTTP response, ClientHello whole and in two parts, FIN+RST, no flags, IPv4 fragment, UDP, truncated frame, Ethernet-framed IPv6 SYN), every trace of <= 3 packets within each of 10 framings, every trace of <= 4 timestamped segments of both directions (IPv4 and IPv6, TSvals whose uptime has different days / hours / minutes) x 16 switch combinations x with/without database, unified analyzer vs stand-alone TCP / HTTP / stateless TLS processors in lock step under the injected clock; distinct = distinct unified outcomes".into(),
+        rule: "every trace of <= 4 packets (5 thorough) over 22 packet kinds (SYN/SYN+ACK/ACK with timestamps, HTTP request with, without and with an empty / blank User-Agent, HTTP response, ClientHello whole and in two parts, FIN+RST, no flags, IPv4 fragment, UDP, truncated frame, Ethernet-framed IPv6 SYN), every trace of <= 3 packets within each of 10 framings, every trace of <= 4 timestamped segments of both directions (IPv4 and IPv6, TSvals whose uptime has different days / hours / minutes) x 16 switch combinations x with/without database, unified analyzer vs stand-alone TCP / HTTP / stateless TLS processors in lock step under the injected clock; distinct = distinct unified outcomes".into(),
         exhaustive: true,
         bounds: json!({"traces": traces.len(), "configurations": cfgs.len(), "max_depth": depth}),
     }
